@@ -10,7 +10,7 @@ evidence file.
 import json, os, sys, time
 sys.path.insert(0, os.path.join(os.path.dirname(os.path.abspath(__file__)), "..", "lib"))
 sys.path.insert(0, os.path.dirname(os.path.abspath(__file__)))
-import vlib, gnet, n08_gen, n08_check, n08_run
+import vlib, gnet, n08_gen, n08_check, n08_run, n08_dangle
 import adjshape
 
 RULE = ("network level: free networks (levelling d=1; 2-D distances d=3; directions+distances d=3; angles only d=4; 3-D slope distances+zenith angles d=4; "
@@ -20,8 +20,18 @@ RULE = ("network level: free networks (levelling d=1; 2-D distances d=3; directi
         "admissible iff rank N_S = defect), every admissible set run with envelope, gso, svd, cholesky; oracle: defect/dof/counts = exact reference, "
         "residuals, [pvv], adjusted observations, their standard deviations, qrr/f/std-residual and every inter-point distance / slope distance / height difference / angle "
         "whose exact gradient is orthogonal to N are equal over all (set, algorithm) pairs (1e-6 m, 1e-6 gon), corrections of the constrained coordinates are "
-        "orthogonal to every null vector restricted to them (1e-8 m); solver level: " + adjshape.RULES["C08"] +
-        "; states = distinct (network, constraint set) inputs + solver-level configurations, transitions = gama-local executions + solver runs")
+        "orthogonal to every null vector restricted to them (1e-8 m); "
+        "dangling-point dimension: every network additionally with ONE extra point P that the adjustment must remove (no observation at all; a single distance; "
+        "one more target in a direction set; right-hand target of a single angle; a single slope distance = removal of xy and z in two passes -- each proved exactly to touch P "
+        "in one observation with non-zero x and y coefficients, i.e. removal by singular_coords() before any solver runs), enumerated over the status of P "
+        "(free xy/z/xyz or constrained XY/Z/XYZ), the position of its id in the point order (before all / between / after all family points) "
+        "and the position of its observation (first = P numbered first, second, last = numbered after every family unknown), for minimal admissible constraint sets "
+        "(evenly spaced in mask order) and the full set; bounds: quick 3 minimal sets; thorough 8 minimal sets + the mixed statuses XYz/xyZ on the complete networks with sign pattern 0, "
+        "2 minimal sets and id position 'between' only on the other networks (other noise patterns, dropped observation, fixed point); "
+        "oracle: (1) the text output lists exactly the expected removals of P and P is printed in no result section, (2) defect/dof/counts, constraint marks, all invariants above "
+        "and the orthogonality / minimal-norm clause are those of the same constraint set without P, and the adjusted coordinates equal those of the run without P (1e-8 m), "
+        "(3) the run with P constrained equals the run with P free (1e-8 m); solver level: " + adjshape.RULES["C08"] +
+        "; states = distinct (network, constraint set[, dangling variant]) inputs + solver-level configurations, transitions = gama-local executions + solver runs")
 
 
 def replay(ck, path):
@@ -32,12 +42,19 @@ def replay(ck, path):
     exe = n08_run.private_exe(vlib.exe("rel", "gama-local"), ck.tmp)
     tier, fi = case["tier"], case["fi"]
     res = []
-    for m in sorted(set(case["masks"])):
-        w = n08_check.worker((tier, fi, m, ck.tmp, exe))
-        g = n08_check.gkf_of(tier, fi, m)
-        stored = (J.get("files") or {}).get("mask_%x.gkf" % m)
+    todo = [(m, None) for m in sorted(set(case["masks"]))]
+    for m, v in case.get("vars") or []:
+        # a dangling-point variant is judged against the same constraint set without the point
+        # and against the variant with the point declared free
+        for t in ((m, tuple(v)), (m, n08_dangle.free_twin(tuple(v))), (m, None)):
+            if t not in todo:
+                todo.append(t)
+    for m, v in todo:
+        w = n08_check.worker((tier, fi, m, ck.tmp, exe) + (() if v is None else (v,)))
+        g = n08_check.gkf_of(tier, fi, m, v)
+        stored = (J.get("files") or {}).get("mask_%x.gkf" % m if v is None else "mask_%x_%s.gkf" % (m, "_".join(str(t) for t in v)))
         if stored is not None and stored != g:
-            print("note: generator output differs from the stored input for mask %x; the stored text is informational" % m)
+            print("note: generator output differs from the stored input for mask %x %s; the stored text is informational" % (m, v or ""))
         res.append(w)
     hits = []
     n08_check.evaluate(tier, fi, res, lambda sig, detail, masks, algs: hits.append((sig, detail)), lambda c: None)
@@ -56,25 +73,34 @@ def main():
     tier = ck.tier
     F = n08_gen.families(tier)
     items = []
+    expected = {}
+    import concurrent.futures as cf
+    with cf.ProcessPoolExecutor(max_workers=vlib.NCPU) as ex:
+        plans = dict(ex.map(n08_check.plan_worker, [(tier, fi) for fi in range(len(F))], chunksize=2))
     for fi, f in enumerate(F):
         k = len(n08_gen.constraint_slots(f.net))
         for mask in range(1 << k):
             items.append((tier, fi, mask, ck.tmp, exe))
+        for mask, var in plans[fi]:                 # (constraint set, dangling-point variant)
+            items.append((tier, fi, mask, ck.tmp, exe, var))
+        expected[fi] = (1 << k) + len(plans[fi])
     # large families first so that the pool drains evenly
     byfam = {}
     done_all = True
     t0 = time.time()
     budget = 45 if tier == "quick" else 600
-    import concurrent.futures as cf
     with cf.ProcessPoolExecutor(max_workers=vlib.NCPU) as ex:
         it = ex.map(n08_check.worker, items, chunksize=4)
         for w in it:
             byfam.setdefault(w["fi"], []).append(w)
-            ck.count("constraint_sets_classified")
-            if w["adm"]:
-                ck.count("net_states"); ck.count("net_runs", 4)
+            if w.get("var") is not None:
+                ck.count("dangling_point_variants"); ck.count("net_states"); ck.count("net_runs", 4)
             else:
-                ck.count("inadmissible_sets_not_run")
+                ck.count("constraint_sets_classified")
+                if w["adm"]:
+                    ck.count("net_states"); ck.count("net_runs", 4)
+                else:
+                    ck.count("inadmissible_sets_not_run")
             if time.time() - t0 > budget or ck.time_left() < 30:
                 done_all = False
                 break
@@ -82,14 +108,16 @@ def main():
             ex.shutdown(wait=False, cancel_futures=True)
     if not done_all:
         ck.exhaustive = False
-        ck.notes.append("network level cut by the time budget after %d constraint sets" % sum(len(v) for v in byfam.values()))
+        ck.notes.append("network level cut by the time budget after %d of %d inputs (constraint sets + dangling-point variants)" % (sum(len(v) for v in byfam.values()), len(items)))
 
     complete = []
     net_out = {}
     for fi in sorted(byfam):
-        k = len(n08_gen.constraint_slots(F[fi].net))
-        if len(byfam[fi]) == (1 << k):          # incomplete family (deadline): not evaluated
-            complete.append((tier, fi, byfam[fi]))
+        # a family cut by the deadline is evaluated on the runs that exist: every clause relates
+        # runs that were made (a hanging gama-local must not hide behind its own timeouts)
+        if len(byfam[fi]) != expected[fi]:
+            ck.count("families_cut_by_deadline_evaluated_partially")
+        complete.append((tier, fi, byfam[fi]))
     with cf.ProcessPoolExecutor(max_workers=vlib.NCPU) as ex:
         for E in ex.map(n08_check.eval_family, complete, chunksize=1):
             ck.count("families_evaluated")
@@ -113,10 +141,12 @@ def main():
     if ck.viol_sigs:
         vlib.log("unlisted violation signatures: " + "; ".join("%s x%d" % kv for kv in sorted(ck.viol_sigs.items())))
     ck.finish(RULE, extra={"network_level_outcome_classes": dict(sorted(net_out.items(), key=lambda kv: -kv[1])),
-                           "network_level": {"networks": len(F), "admissible_constraint_sets_run": ck.counters.get("net_states", 0),
+                           "network_level": {"networks": len(F), "admissible_constraint_sets_run": ck.counters.get("net_states", 0) - ck.counters.get("dangling_point_variants", 0),
+                                             "dangling_point_variants_run": ck.counters.get("dangling_point_variants", 0),
                                              "gama_local_runs": ck.counters.get("net_runs", 0)}},
               assumptions=[
         "integer lattice coordinates {0,100,200}^2 x heights {0,10,30}; 4-5 points; larger networks and off-lattice geometry are not covered",
+        "dangling point at (300,150[,20]): no sight to it is parallel to a coordinate axis (an axis-parallel single sight gives 0/0 in LocalNetwork::singular_coords and is not removed there: a removal question, property C20); one dangling point per input; under-determined attachments that the solver-dependent null_space() path would have to remove (e.g. a station with two directions) are not generated; non-minimal constraint sets other than the full one are run without dangling point only",
         "noise +-0.5 mm / +-1.5 cc; the check asserts every coordinate correction <= 4 mm, which bounds the second-order linearisation term of any distance by 1.6e-7 m (6x below the 1e-6 m tolerance; typical margin 25-100x); --iterations 0 so that 'correction' means adjusted - given approximate value",
         "standard deviations compared with 1e-6 mm|cc + 1e-8 relative; [pvv] with 3e-7 relative (8 printed digits); qrr/f/std-residual with two units of their 3 printed decimals",
         "solver level: " + "integer design matrices with entries in {-2..2}, n<=%s unknowns" % ("4" if tier == "thorough" else "3")])
